@@ -184,12 +184,41 @@ def check_C01(rep):
     if run3 is not None:
         rep.notes["dsl_parsers"] = h3_rule_analysis(rep, run3, ["RS", "RI", "SL"] if False else ["RS", "RI"], "symbol-resolution")
         h3_tables_and_runs(rep, run3, tables=True, runs=False)
+        rep.notes["dsl_verdicts_judged"] = h3_language_oracle(rep, run3)
     rep.cov["distinct_nontrivial"] = nontrivial
     rep.cov["traces_validated_against_impl"] = nin
     rep.cov["rule"] = "grammars: forced shapes (mutual left recursion, slice stride, closure memo, LR(1)-not-LALR, unit chains, nullable runs, unused/ruleless nonterminals) + random grammars fitted to carrier parsers; inputs: all term strings up to a bound + sampled sentences + token mutations. Non-trivial = grammar without conflict line with at least one accepted and one rejected input (distinct grammars counted)."
     rep.cov["samples"] = samples
     rep.notes["grammars"] = ncases; rep.notes["conflict_free_grammars"] = len(cands)
     return rep
+
+def h3_language_oracle(rep, run3):
+    """C01 through the public DSL: for generated programs whose real diagnostics show no conflict and whose rules do not use the
+    error symbol, every verdict of the real parser is compared with derivability (Earley) in the grammar AS WRITTEN (symbols by
+    name) of the token string computed by the independent tokeniser"""
+    import h3fam
+    n = 0
+    for gid in sorted(run3.real):
+        r = run3.real[gid]; meta = run3.meta[gid]
+        if r["skipped"] or r["gen"] != "ok" or "CONFLICT" in r["diag"]: continue
+        if any(kd == 2 for ru in meta["rules"] for kd, v in ru["rhs"]): continue
+        if len({bytes(t["id"]) for t in meta["terms"]}) != len(meta["terms"]) or len(set(meta["nts"])) != len(meta["nts"]): continue   # duplicate ids: not a grammar
+        rules = [(("n", ru["lhs"]), [("n", v) if kd == 0 else ("t", v) for kd, v in ru["rhs"]]) for ru in meta["rules"]]
+        root = ("n", meta["root"])
+        for j, (flags, b) in enumerate(split_h3_inputs(run3, gid)):
+            if j >= len(r["inputs"]): break
+            ri = r["inputs"][j]
+            if ri["res"] == "LOOP": continue
+            toks, end = h3fam.py_tokenise(meta, b, flags)
+            if end[0] != "eof": continue
+            want = cyk.earley(rules, root, [("t", t) for (t, s0, l0) in toks], lambda sy: sy if sy[0] == "t" else None)
+            got = ri["res"].startswith("VALUE")
+            rep.cov["evaluations"] += 1; n += 1
+            if want != got:
+                rep.fail(kind="derivable-input-rejected" if want else "underivable-input-accepted", parser=gid, bytes=list(b), flags=flags,
+                         tokens=[bytes(meta["terms"][t]["name"]).decode("latin1") for (t, s0, l0) in toks], observed=ri["res"][:120],
+                         grammar={"nterms": meta["nts"], "root": meta["root"], "rules": [[ru["lhs"], [v if kd == 0 else bytes(meta["terms"][v]["name"]).decode("latin1") for kd, v in ru["rhs"]]] for ru in meta["rules"]]})
+    return n
 
 NP_TEXT = "NP grammars with a reachable non-productive nonterminal: the LR(1) automaton keeps items whose rule can never be completed, so a term that no sentence can continue is shifted and the syntax error is reported at a later term (S->a|b X; X->X c on 'b' reports <eof>); identified by: grammar has such a nonterminal, exactly one message is written, and it is the message the pinned model predicts"
 D12_TEXT = "D12 accept/reduce conflict hidden by the break on success in transitions() (ctpg.hpp): a state holding '## <- root .' and another completed item on <eof> gets a plain 'success' cell and no conflict line"
@@ -418,6 +447,7 @@ def clean_grammar(run, cid):
 
 def check_C09(rep):
     common_stage(rep)
+    FX.run_fixed(rep, "messages.cpp", "g++", "", "failure-message-names-the-wrong-term-or-position-or-a-byte-is-skipped-silently")
     run = h1_stage(rep)
     if run is None: return rep
     nontriv = set(); samples = []; np_cases = set()
@@ -474,6 +504,7 @@ LEAF = re.compile(r"t\[([0-9a-f]*)\]@(\d+):(\d+)")
 
 def check_C10(rep):
     common_stage(rep)
+    FX.run_fixed(rep, "messages.cpp", "clang++", "", "position-in-a-message-is-not-the-true-line-and-column")
     run = h1_stage(rep)
     if run is None: return rep
     nontriv = set(); samples = []
